@@ -105,19 +105,22 @@ CONTRACTS.update({
         params={"node": NODE, "graph": GRAPH, "state": STATE, "provided_values": DICT(STR, ANY)},
         returns=DICT(STR, ANY),
         requires=["all(k in state.values for k in provided_values)", "all(src_defined(graph, state, node, p) for p in node.inputs)"],
+        imports={"GraphNode": "hypergraph.nodes.graph_node"},
         ensures=[
-            "all(p in result for p in node.inputs)",
+            # every input is handed over, except that a NESTED graph is not handed the signature defaults of its own nodes:
+            # it resolves them itself, one copy per inner consumer (C05: exactly like the inlined nodes)
+            "all((p in result) == (not passes_down_default(graph, state, node, p, ValueSource, GraphNode)) for p in node.inputs)",
             "all(k in node.inputs for k in result)",
-            "all(resolved_ok(result[p], graph, state, node, p, ValueSource) for p in node.inputs)",
+            "all(p not in result or resolved_ok(result[p], graph, state, node, p, ValueSource) for p in node.inputs)",
         ],
         may_raise={"GraphConfigError": True},
         modifies=[],
         loops=[{"invariant": [
-            "all(p in inputs for p in _seq[:_i])",
+            "all((p in inputs) == (not passes_down_default(graph, state, node, p, ValueSource, GraphNode)) for p in _seq[:_i])",
             "all(k in _seq[:_i] for k in inputs)",
-            "all(resolved_ok(inputs[p], graph, state, node, p, ValueSource) for p in _seq[:_i])",
+            "all(p not in inputs or resolved_ok(inputs[p], graph, state, node, p, ValueSource) for p in _seq[:_i])",
         ]}],
-        mustfail="all(result[p] is src_value(graph, state, node, p) for p in node.inputs)",
+        mustfail="all(p not in result or result[p] is src_value(graph, state, node, p) for p in node.inputs)",
     ),
 })
 
